@@ -3,6 +3,7 @@ package harness
 import (
 	"context"
 	"fmt"
+	"os"
 	"strings"
 	"sync"
 	"testing"
@@ -50,7 +51,7 @@ func (*ctrlEng) Cases(thorough bool) int {
 }
 
 func (*ctrlEng) Rule() string {
-	return "one generic controller (transform+input finalizers / qtransform / cleanup+RemoveOutputs / destroy) in the real runtime; scenario = random interleaving of single gated controller store operations with external ops on 2 input ids (create, update, teardown, destroy, re-create, foreign finalizers on inputs and outputs) and quiescence points; the recorded write log is validated; non-trivial = the log has at least one external write between two controller store operations of one reconcile, at least one controller destroy or finalizer removal, and at least 2 quiescence points; distinct by hash of the scenario"
+	return "one generic controller (transform+input finalizers / qtransform / qtransform+IgnoreTeardownUntil / cleanup+RemoveOutputs / cleanup+Combine(HasNoOutputs[COut2],RemoveOutputs[COut]) / destroy) in the real runtime; scenario = random interleaving of single gated controller store operations with external ops on 2 input ids (create, update, teardown, destroy, re-create, foreign finalizers on inputs and outputs, dependents of two types created and removed) and quiescence points; in half of the cases up to 4 one-shot reactive external operations are armed (`arm on=<get|list|create|update|destroy>:<type> do=…`) which run right after the next controller store operation of that kind returned, i.e. inside the window between two store operations of one reconcile; the recorded write log is validated; non-trivial = the log has at least one external write between two controller store operations of one reconcile, at least one controller destroy or finalizer removal, and at least 2 quiescence points; distinct by hash of the scenario"
 }
 
 func (*ctrlEng) NonTrivial(c Case, _ []string) bool {
@@ -87,6 +88,7 @@ func (e *ctrlEng) Exec(*testing.T, Case) []string { panic("ctrl is a Tracer engi
 const (
 	ctrlInType  = "CIn"
 	ctrlOutType = "COut"
+	ctrlOut2Type = "COut2"
 )
 
 // CIn / COut: typed resources with a static resource definition (usable on nil receivers).
@@ -106,6 +108,23 @@ func NewCIn(id string) *CIn {
 
 func NewCOut(id string) *COut {
 	return &COut{md: resource.NewMetadata("n1", ctrlOutType, id, resource.VersionUndefined)}
+}
+
+// COut2 is a second kind of dependent output (cleanup-combine: HasNoOutputs[*COut2]).
+type COut2 struct {
+	md   resource.Metadata
+	spec TSpec
+}
+
+func NewCOut2(id string) *COut2 {
+	return &COut2{md: resource.NewMetadata("n1", ctrlOut2Type, id, resource.VersionUndefined)}
+}
+
+func (r *COut2) Metadata() *resource.Metadata { return &r.md }
+func (r *COut2) Spec() any                    { return r.spec }
+func (r *COut2) DeepCopy() resource.Resource  { return &COut2{md: r.md, spec: r.spec} } //nolint:ireturn
+func (*COut2) ResourceDefinition() meta.ResourceDefinitionSpec {
+	return meta.ResourceDefinitionSpec{Type: ctrlOut2Type, DefaultNamespace: "n1"}
 }
 
 func (r *CIn) Metadata() *resource.Metadata { return &r.md }
@@ -129,6 +148,44 @@ type ctrlLog struct {
 	outs  []string
 	gate  chan struct{}
 	waits int
+	armed []Args      // one-shot reactive external operations (op `arm`), oldest first
+	env   *ctrlProxy  // the ungated proxy the armed operations go through
+	fired int
+}
+
+// fire runs the oldest armed external operation waiting for the controller operation `on`
+// (e.g. "update:COut", "get:CIn"): it is executed right after that controller operation
+// returned from the store and before the controller sees the result, i.e. inside the window
+// between two consecutive store operations of one reconcile.
+func (l *ctrlLog) fire(ctx context.Context, kind string, typ resource.Type, id resource.ID, phase string) {
+	l.mu.Lock()
+
+	var hit Args
+
+	for i, a := range l.armed {
+		if (a["on"] == kind+":"+typ || a["on"] == kind+":*") && (a["ph"] == "" || a["ph"] == phase) {
+			hit = Args{}
+			for k, v := range a {
+				hit[k] = v
+			}
+
+			if hit["id"] == "@" { // the resource the controller just touched
+				hit["id"] = id
+			}
+
+			l.armed = append(l.armed[:i:i], l.armed[i+1:]...)
+			l.fired++
+
+			break
+		}
+	}
+
+	env := l.env
+	l.mu.Unlock()
+
+	if hit != nil && env != nil {
+		ctrlEnv(ctx, env, hit)
+	}
 }
 
 func (l *ctrlLog) add(op, out string) {
@@ -200,7 +257,16 @@ func (p *ctrlProxy) Get(ctx context.Context, ptr resource.Pointer, opts ...state
 		return nil, err
 	}
 
-	return p.inner.Get(ctx, ptr, opts...)
+	res, err := p.inner.Get(ctx, ptr, opts...)
+	p.fire(ctx, "get", ptr.Type(), ptr.ID(), "")
+
+	return res, err
+}
+
+func (p *ctrlProxy) fire(ctx context.Context, kind string, typ resource.Type, id resource.ID, phase string) {
+	if p.gated {
+		p.log.fire(ctx, kind, typ, id, phase)
+	}
 }
 
 func (p *ctrlProxy) List(ctx context.Context, kind resource.Kind, opts ...state.ListOption) (resource.List, error) {
@@ -208,7 +274,10 @@ func (p *ctrlProxy) List(ctx context.Context, kind resource.Kind, opts ...state.
 		return resource.List{}, err
 	}
 
-	return p.inner.List(ctx, kind, opts...)
+	res, err := p.inner.List(ctx, kind, opts...)
+	p.fire(ctx, "list", kind.Type(), "", "")
+
+	return res, err
 }
 
 func (p *ctrlProxy) Create(ctx context.Context, r resource.Resource, opts ...state.CreateOption) error {
@@ -229,6 +298,8 @@ func (p *ctrlProxy) Create(ctx context.Context, r resource.Resource, opts ...sta
 	} else {
 		p.log.add(op, "ok "+ResStr(r))
 	}
+
+	p.fire(ctx, "create", r.Metadata().Type(), r.Metadata().ID(), r.Metadata().Phase().String())
 
 	return err
 }
@@ -257,6 +328,8 @@ func (p *ctrlProxy) Update(ctx context.Context, r resource.Resource, opts ...sta
 		p.log.add(op, "ok "+ResStr(r))
 	}
 
+	p.fire(ctx, "update", r.Metadata().Type(), r.Metadata().ID(), r.Metadata().Phase().String())
+
 	return err
 }
 
@@ -278,6 +351,8 @@ func (p *ctrlProxy) Destroy(ctx context.Context, ptr resource.Pointer, opts ...s
 	} else {
 		p.log.add(op, "ok")
 	}
+
+	p.fire(ctx, "destroy", ptr.Type(), ptr.ID(), "")
 
 	return err
 }
@@ -344,6 +419,21 @@ func ctrlRegister(rt *runtime.Runtime, kind string) error {
 				}),
 			},
 		))
+	case "cleanup-combine":
+		// the first handler only waits (HasNoOutputs), the last one removes its outputs
+		return rt.RegisterController(cleanup.NewController(
+			cleanup.Settings[*CIn]{
+				Name: ctrlName,
+				Handler: cleanup.Combine(
+					cleanup.HasNoOutputs[*COut2](func(in *CIn) state.ListOption {
+						return state.WithLabelQuery(resource.LabelEqual("parent", in.Metadata().ID()))
+					}),
+					cleanup.RemoveOutputs[*COut](func(in *CIn) state.ListOption {
+						return state.WithLabelQuery(resource.LabelEqual("parent", in.Metadata().ID()))
+					}),
+				),
+			},
+		))
 	case "destroy":
 		return rt.RegisterQController(destroy.NewController[*CIn](optional.Some(uint(1))))
 	}
@@ -351,7 +441,7 @@ func ctrlRegister(rt *runtime.Runtime, kind string) error {
 	return fmt.Errorf("unknown controller kind %q", kind)
 }
 
-var ctrlKinds = []string{"qtransform", "transform", "cleanup", "destroy", "qtransform-ignore"}
+var ctrlKinds = []string{"qtransform", "transform", "cleanup", "destroy", "qtransform-ignore", "transform", "cleanup-combine"}
 
 func (e *ctrlEng) Gen(r *Rand, thorough bool, idx int) Case {
 	kind := ctrlKinds[idx%len(ctrlKinds)]
@@ -363,8 +453,61 @@ func (e *ctrlEng) Gen(r *Rand, thorough bool, idx int) Case {
 		n = 80 + r.Intn(80)
 	}
 
+	isCleanup := kind == "cleanup" || kind == "cleanup-combine"
+	outTypes := []string{ctrlOutType}
+
+	if kind == "cleanup-combine" {
+		outTypes = []string{ctrlOutType, ctrlOut2Type, ctrlOut2Type}
+	}
+
+	// half of the cases arm reactive external operations: they run inside the window right after a
+	// chosen kind of controller store operation (stale reads, writes landing between two writes)
+	reactive := (idx/len(ctrlKinds))%2 == 1
+
 	for i := 0; i < n; i++ {
 		id := Pick(r, ids)
+
+		if reactive && r.Chance(1, 6) {
+			if r.Chance(1, 2) {
+				// the windows of the finalizer protocol: right after the controller tore an output down, read an
+				// output or an input, put its finalizer on an input, destroyed an output
+				c.Ops = append(c.Ops, "arm "+Pick(r, []string{
+					"on=update:COut ph=tearingDown do=addfin typ=COut id=@",
+					"on=get:COut do=addfin typ=COut id=@",
+					"on=get:COut do=rmfin typ=COut id=@",
+					"on=update:CIn do=teardown id=@",
+					"on=get:CIn do=teardown id=@",
+					"on=update:CIn do=addfin typ=CIn id=@",
+					"on=destroy:COut do=put id=@ spec=s9",
+					"on=create:COut do=teardown id=@",
+					"on=list:CIn do=teardown id=" + id,
+					"on=list:COut do=addfin typ=COut id=" + id,
+				}))
+
+				continue
+			}
+
+			on := Pick(r, []string{"get", "list", "create", "update", "update", "destroy"}) + ":" + Pick(r, []string{ctrlInType, ctrlOutType, ctrlOutType, "*"})
+
+			var do string
+
+			switch y := r.Intn(10); {
+			case y < 3:
+				do = fmt.Sprintf("do=addfin typ=%s id=%s", Pick(r, []string{ctrlInType, ctrlOutType, ctrlOutType}), id)
+			case y < 5:
+				do = fmt.Sprintf("do=rmfin typ=%s id=%s", Pick(r, []string{ctrlInType, ctrlOutType}), id)
+			case y < 7:
+				do = "do=teardown id=" + id
+			case y < 9:
+				do = fmt.Sprintf("do=put id=%s spec=s%d", id, r.Intn(3))
+			default:
+				do = "do=destroy id=" + id
+			}
+
+			c.Ops = append(c.Ops, "arm on="+on+" "+do)
+
+			continue
+		}
 
 		switch x := r.Intn(100); {
 		case x < 45:
@@ -377,8 +520,10 @@ func (e *ctrlEng) Gen(r *Rand, thorough bool, idx int) Case {
 			c.Ops = append(c.Ops, "env do=destroy id="+id)
 		case x < 76:
 			c.Ops = append(c.Ops, fmt.Sprintf("env do=%s typ=%s id=%s", Pick(r, []string{"addfin", "rmfin", "rmfin"}), Pick(r, []string{ctrlInType, ctrlOutType}), id))
-		case x < 82 && kind == "cleanup":
-			c.Ops = append(c.Ops, fmt.Sprintf("env do=mkout id=%s parent=%s", Pick(r, []string{"o1", "o2", "o3"}), id))
+		case x < 82 && isCleanup:
+			c.Ops = append(c.Ops, fmt.Sprintf("env do=mkout typ=%s id=%s parent=%s", Pick(r, outTypes), Pick(r, []string{"o1", "o2", "o3"}), id))
+		case x < 85 && kind == "cleanup-combine":
+			c.Ops = append(c.Ops, fmt.Sprintf("env do=rmout typ=%s id=%s", Pick(r, outTypes), Pick(r, []string{"o1", "o2", "o3"})))
 		case x < 90:
 			c.Ops = append(c.Ops, "quiesce")
 		default:
@@ -393,6 +538,11 @@ func (e *ctrlEng) Gen(r *Rand, thorough bool, idx int) Case {
 
 	for _, id := range []string{"o1", "o2", "o3"} {
 		c.Ops = append(c.Ops, "env do=rmfin typ="+ctrlOutType+" id="+id)
+
+		if kind == "cleanup-combine" {
+			// the dependents the controller only waits for are removed by their owner (the environment)
+			c.Ops = append(c.Ops, "env do=rmout typ="+ctrlOut2Type+" id="+id)
+		}
 	}
 
 	c.Ops = append(c.Ops, "quiesce")
@@ -448,11 +598,23 @@ func ctrlEnv(ctx context.Context, env *ctrlProxy, a Args) {
 			return
 		}
 
+		if a["typ"] == ctrlOut2Type {
+			out := NewCOut2(id)
+			out.md.Labels().Set("parent", a["parent"])
+			out.md.SetCreated(fromTick(0))
+			out.md.SetUpdated(fromTick(0))
+			_ = env.Create(ctx, out)
+
+			return
+		}
+
 		out := NewCOut(id)
 		out.md.Labels().Set("parent", a["parent"])
 		out.md.SetCreated(fromTick(0))
 		out.md.SetUpdated(fromTick(0))
 		_ = env.Create(ctx, out)
+	case "rmout": // the environment destroys a dependent output it owns
+		_ = env.Destroy(ctx, resource.NewMetadata("n1", a["typ"], id, resource.VersionUndefined))
 	}
 }
 
@@ -469,8 +631,14 @@ func (e *ctrlEng) Trace(t *testing.T, sc Case) (Case, []string) {
 		inner := namespaced.NewState(func(ns resource.Namespace) state.CoreState { return inmem.NewState(ns) })
 		ctl := &ctrlProxy{inner: inner, log: log, actor: "ctrl", gated: true}
 		env := &ctrlProxy{inner: inner, log: log, actor: "env"}
+		log.env = env
 
-		rt, err := runtime.NewRuntime(state.WrapCore(ctl), zap.NewNop())
+		logger := zap.NewNop()
+		if os.Getenv("VERIF_CTRL_DEBUG") != "" { // controller and runtime logs on stderr, for studying a replay
+			logger, _ = zap.NewDevelopment()
+		}
+
+		rt, err := runtime.NewRuntime(state.WrapCore(ctl), logger)
 		if err != nil {
 			panic(err)
 		}
@@ -504,6 +672,12 @@ func (e *ctrlEng) Trace(t *testing.T, sc Case) (Case, []string) {
 				synctest.Wait()
 				ctrlEnv(ctx, env, a)
 				synctest.Wait()
+			case "arm":
+				log.mu.Lock()
+				if len(log.armed) < 4 {
+					log.armed = append(log.armed, a)
+				}
+				log.mu.Unlock()
 			case "quiesce":
 				// run until nothing moves: permit every waiting op, let timers (backoff, requeue) fire
 				idle, sleep := 0, time.Second
